@@ -130,7 +130,10 @@ func toHeaders(md metadata.MD, h http.Header, prefix string) {
 			// ignore reserved header keys
 			continue
 		}
-		isBin := strings.HasSuffix(lowerK, "-bin")
+		// the receiver decides from the name of the header field as it is on
+		// the wire, i.e. including the prefix (the key "bin" sent with the
+		// prefix "X-GRPC-Trailer-" is a field whose name ends in "-bin")
+		isBin := strings.HasSuffix(strings.ToLower(prefix)+lowerK, "-bin")
 		for _, v := range vs {
 			if isBin {
 				v = base64.URLEncoding.EncodeToString([]byte(v))
